@@ -127,7 +127,7 @@ Proof.
       apply (proj1 (sig_eqb_eq _ _)) in LA. subst sg.
       match goal with H : Nat.eqb _ _ = true |- _ => apply (proj1 (nat_eqb_eq _ _)) in H; rename H into HN end.
       match goal with H : Bool.eqb _ _ = true |- _ => apply (proj1 (bool_eqb_eq _ _)) in H; rename H into HA end.
-      match goal with H : dict_equiv _ _ = true |- _ => pose proof (dict_equiv_get _ _ H K_WRAPPED) as HD end.
+      match goal with H : dict_rel _ _ = true |- _ => unfold dict_rel in H; apply andb_true_iff in H as [HD _]; apply (proj1 (option_eqb_eq _ nat_eqb_eq _ _)) in HD end.
       repeat match goal with H : option_eqb Nat.eqb _ _ = true |- _ => apply (proj1 (option_eqb_eq _ nat_eqb_eq _ _)) in H end.
       unfold obs_of_built. cbn [bo_sig bo_name bo_doc bo_module bo_dict bo_async].
       rewrite SG. rewrite <- HN, <- HA, <- HD.
@@ -148,15 +148,16 @@ Theorem agree_implies_holds k :
   wf_func (k_f k) -> k_steps k <> [] -> steps_nonzero (k_steps k) ->
   Forall (fun c => NoDup (keys (c_kw c))) (k_calls k) ->
   (k_forward k = true -> forallb plain_step (k_steps k) = true) ->
+  (k_forward k = false -> partial_ok (k_steps k) (k_partial k) = true) ->
   agree k = true -> holds k = true.
 Proof.
-  intros WF NE NZ NDc PL AG.
+  intros WF NE NZ NDc PL PA AG.
   unfold agree in AG.
   destruct (run_steps (k_f k) (k_steps k)) as [gs e] eqn:RS.
   repeat match goal with H : _ && _ = true |- _ => apply andb_true_iff in H as [? ?] end.
-  pose proof (model_holds (k_f k) (k_steps k) (k_forward k) (k_calls k) WF NE NZ NDc PL) as MH.
+  pose proof (model_holds (k_f k) (k_steps k) (k_forward k) (k_partial k) (k_calls k) WF NE NZ NDc PL PA) as MH.
   unfold holds, model_case in MH. unfold holds.
-  cbn [k_f k_fsig k_fasync k_calls k_direct k_steps k_forward k_levels k_fail k_top_calls k_fsig_after k_fdict_after k_again] in MH.
+  cbn [k_f k_fsig k_fasync k_calls k_direct k_steps k_forward k_partial k_levels k_fail k_top_calls k_fsig_after k_fdict_after k_again] in MH.
   rewrite RS in MH. cbn [fst snd] in MH.
   rewrite (sig_of_func_sig _ (wf_len _ WF)) in *.
   repeat match goal with
